@@ -143,6 +143,10 @@ var checks = map[string]checkCfg{
 		Rule:        "each case draws TransferSize from {1,7,512,4096,65536,100000,2^20,2^22,default}, optionally a second value applied at runtime, and 3-10 count selectors over {1, pref, pref+1, max-1, max, 65537, 70000, every power of two <= max} (max itself always included); FSINFO is asked first and every WRITE/READ count is <= the advertised maximum; non-trivial = a count at or above the preferred size or equal to the maximum was exercised; distinct = FNV-64 of the case JSON",
 		Assumptions: append([]string{"real sockets on loopback"}, baseAssumptions...),
 		Phases:      []phase{rp("rapid", "^TestC23$", 6, 25, 16, 250)}},
+	"C24": {Level: "exploration", Technique: "rapid update sequences with zero/negative/nil fields vs positivity, in-force=reported, serviceability and atomic-reject oracles",
+		Rule:        "each case draws 1-6 calls among UpdateExportOptions / UpdateTuningOptions / UpdatePolicyOptions whose numeric fields come from {0,-1,1,7,4096,65536,2^20}, durations from {0,-1s,1ns,1ms,5s,1h}, Timeouts from {nil, all zero, partly filled, full, negative}, RateLimitConfig from {nil, zero struct, default}, Squash from {same, empty, other case, other value}; after every call the reported configuration, the in-force values and LOOKUP/READ/WRITE through HandleCall are checked; non-trivial = the update carried a zero/negative/nil field or was rejected; distinct = FNV-64 of the case JSON",
+		Assumptions: append([]string{"keeping the previous positive value instead of the construction default is accepted"}, baseAssumptions...),
+		Phases:      []phase{rp("rapid", "^TestC24$", 4, 500, 16, 5000)}},
 	"C02": {Level: "exploration", Technique: "rapid histories vs POSIX tree model + cached-vs-uncached differential",
 		Rule:        "cases are rapid-generated sequential histories of LOOKUP/CREATE/MKDIR/SYMLINK/REMOVE/RMDIR/RENAME/READDIR(PLUS)/GETATTR/READLINK over names {a,b,c} to depth 3, addressed through every handle ever issued (stale ones included); each history runs under the all-off baseline and k cached configurations (quick 3, thorough 6 of 15); non-trivial = a read-type request on a name or directory affected by an earlier successful mutation, executed under a configuration with at least one cache on; distinct = FNV-64 of the case JSON",
 		Assumptions: append([]string{"documented latitude L1-L7 of DESIGN.md §5 C02 (REMOVE of empty dir, UNCHECKED/EXCLUSIVE on existing objects, error code identity not compared against the model, path-bound handles)"}, baseAssumptions...),
